@@ -182,6 +182,14 @@ def run(ctx):
             ctx.selftest_corrupt("MC_LogitsStore_Trace", good, _corrupt, constants=consts(BOTH, 100),
                                  files=mc_files(ctx, "selftest", [], [], u, "LogitsStore_Trace"))
             first = False
+    # lines whose missing components were simply never passed to the TextLine constructor (what user code does): an omitted
+    # component must be missing, i.e. reported by Save
+    ctor_plan = [["Save", "A", "file", False, 0, 0], ["Save", "A", "bytes", False, 0, 0], ["Save", "A", "file", True, 0, 0],
+                 ["Load", "B", "file", False, 0, 0]]
+    pool = [a for a in L.layouts(2) if any(l["lg"] == L.NONE or l["ch"] == L.NONE or l["co"] == L.NONE for l in a)]
+    ccd = [{"A": a, "B": b, "ops": ctor_plan, "universe": u, "ctor_defaults": True}
+           for a in pool[::(3 if ctx.tier == "quick" else 1)] for b in L.layouts(2, old=True)[:2]]
+    judge(ctx, "constructor-defaults", ccd, execute(ctx, ccd), u)
     # both directions, longer sequences, on a smaller set of layouts
     full = {"SaveFrom": {"A", "B"}, "LoadInto": {"A", "B"}, "DenseOn": {"A", "B"}}
     sa = [l for l in L.layouts(2, ids=["x", "y"]) if len(l) >= 1][::(13 if ctx.tier == "quick" else 5)]
